@@ -35,6 +35,7 @@ type Env struct {
 	noUnfold bool        // do not emit unfoldings of recursive spec functions
 	unfolds  *[]unfoldT  // collects unfolding templates for terms with bound variables
 	cst    *State // state supplying local cells (current even inside old()); nil = st
+	capOld bool   // closure contract: inside old(), captured variables denote their values in the old state
 }
 
 func (e *Env) with(vars map[string]TV) *Env {
@@ -130,24 +131,16 @@ func (e *Env) eval(x Expr) (TV, error) {
 		return TV{ite(c, a.T, b.T), typ}, nil
 	case *EQuant:
 		v := quote("q:" + x.Var)
-		vtyp, vsort, terr := e.quantVarType(x)
-		if terr != nil {
-			return TV{}, terr
+		qs := x.varSort()
+		qt, err := e.quantVarType(x)
+		if err != nil {
+			return TV{}, err
 		}
-		env := e.with(map[string]TV{x.Var: {Term{v, vsort}, vtyp}})
+		env := e.with(map[string]TV{x.Var: {Term{v, qs}, qt}})
 		env.bound = true
 		body, err := env.evalBool(x.Body)
 		if err != nil {
 			return TV{}, err
-		}
-		if vsort != SInt {
-			if x.Lo != nil {
-				return TV{}, fmt.Errorf("quantifier over %s cannot have a range", x.VType)
-			}
-			if x.Forall {
-				return TV{T(SBool, "(forall ((%s %s)) %s)", v, vsort, body.S), tBool}, nil
-			}
-			return TV{T(SBool, "(exists ((%s %s)) %s)", v, vsort, body.S), tBool}, nil
 		}
 		rng := tTrue
 		if x.Lo != nil {
@@ -162,9 +155,9 @@ func (e *Env) eval(x Expr) (TV, error) {
 			rng = and(le(lo.T, Term{v, SInt}), lt(Term{v, SInt}, hi.T))
 		}
 		if x.Forall {
-			return TV{T(SBool, "(forall ((%s Int)) %s)", v, implies(rng, body).S), tBool}, nil
+			return TV{T(SBool, "(forall ((%s %s)) %s)", v, qs, implies(rng, body).S), tBool}, nil
 		}
-		return TV{T(SBool, "(exists ((%s Int)) %s)", v, and(rng, body).S), tBool}, nil
+		return TV{T(SBool, "(exists ((%s %s)) %s)", v, qs, and(rng, body).S), tBool}, nil
 	case *EField:
 		return e.field(x)
 	case *EIndex:
@@ -188,6 +181,17 @@ func (e *Env) eval(x Expr) (TV, error) {
 		lo, err := e.eval(x.Lo)
 		if err != nil {
 			return TV{}, err
+		}
+		if xv.T.Sort == SStr {
+			// substring s[lo:hi] (same term the translator builds for the Go expression)
+			hi := TV{T(SInt, "(slen %s)", xv.T.S), tInt}
+			if x.Hi != nil {
+				hi, err = e.eval(x.Hi)
+				if err != nil {
+					return TV{}, err
+				}
+			}
+			return TV{e.vc.strSub(xv.T, lo.T, hi.T), types.Typ[types.String]}, nil
 		}
 		if xv.T.Sort != SSlice {
 			return TV{}, fmt.Errorf("slice expression on non-slice %s", exprString(x.X))
@@ -299,6 +303,27 @@ func (e *Env) goCall(fn *ssa.Function, args []TV) (TV, error) {
 	saved := vc.muted
 	vc.muted = true
 	defer func() { vc.muted = saved }()
+	// A function with a contract that writes nothing and demands nothing
+	// ("pure", no requires) is used through its contract: the value is the
+	// contract's result (an uninterpreted function of the arguments when it
+	// is "deterministic") with its postconditions assumed. This is a ghost
+	// call: it presumes the function terminates on these arguments.
+	if fc := vc.specs.contractFor(funcName(fn)); fc != nil && fc.Pure && len(fc.Requires) == 0 && !fc.InlineCalls {
+		caller := e.fr
+		if caller == nil {
+			caller = vc.newFrame(fn, nil)
+		}
+		var ats []Term
+		var tys []types.Type
+		for i, a := range args {
+			ats = append(ats, a.T)
+			tys = append(tys, fn.Params[i].Type())
+		}
+		st := e.st.clone()
+		res := caller.modularCall(fc, fn, nil, ats, tys, fn.Signature, st, tTrue, "spec:"+fn.Name())
+		vc.inlined["(contract used in contracts) "+funcName(fn)] = true
+		return TV{res[0], fn.Signature.Results().At(0).Type()}, nil
+	}
 	fr := vc.newFrame(fn, nil)
 	fr.depth = 1
 	for i, p := range fn.Params {
@@ -448,6 +473,16 @@ func (e *Env) ident(name string) (TV, error) {
 			return TV{t, e.fr.letTypes[name]}, nil
 		}
 		if e.inOld {
+			// contract of a closure: a captured variable is shared state, not a
+			// local of the closure; inside old() it has its value in the old
+			// state (entry of the closure / state before the call)
+			if e.capOld && e.st != nil {
+				if cell, typ := e.fr.cellByName(name, e.st); cell != nil && isCapturedCell(cell) {
+					if t, ok := e.st.cells[cell]; ok {
+						return TV{t, typ}, nil
+					}
+				}
+			}
 			for _, p := range e.fr.fn.Params {
 				if p.Name() == name {
 					return TV{e.fr.vals[p], p.Type()}, nil
@@ -774,6 +809,44 @@ func (e *Env) call(x *ECall) (TV, error) {
 			args = append(args, v.T.S)
 		}
 		return TV{T(SInt, "(i%s %s)", x.Fn, strings.Join(args, " ")), tInt}, nil
+	case "errvar":
+		// errvar(x): the error value x is the value of a package-level error
+		// variable (a sentinel); errors.New / fmt.Errorf results are not
+		if len(x.Args) != 1 {
+			return TV{}, fmt.Errorf("errvar takes one argument")
+		}
+		v, err := e.eval(x.Args[0])
+		if err != nil {
+			return TV{}, err
+		}
+		if v.T.Sort != SInt {
+			return TV{}, fmt.Errorf("errvar of non-interface value")
+		}
+		vc.declare("is_errvar", "(declare-fun is_errvar (Int) Bool)")
+		return TV{T(SBool, "(is_errvar %s)", v.T.S), tBool}, nil
+	case "deref":
+		// deref(p): the value a pointer to a scalar (non-struct, non-array)
+		// element points to, in the current state
+		if len(x.Args) != 1 {
+			return TV{}, fmt.Errorf("deref takes one argument")
+		}
+		v, err := e.eval(x.Args[0])
+		if err != nil {
+			return TV{}, err
+		}
+		if v.Typ == nil {
+			return TV{}, fmt.Errorf("deref of untyped value %s", exprString(x.Args[0]))
+		}
+		pt, ok := v.Typ.Underlying().(*types.Pointer)
+		if !ok {
+			return TV{}, fmt.Errorf("deref of non-pointer %s", v.Typ)
+		}
+		switch pt.Elem().Underlying().(type) {
+		case *types.Struct, *types.Array:
+			return TV{}, fmt.Errorf("deref of pointer to %s: use field access / indexing", pt.Elem())
+		}
+		h := vc.heap(e.st, ptrHeapName(pt.Elem()), arraySort(SInt, vc.sortOf(pt.Elem())))
+		return TV{sel(h, v.T), pt.Elem()}, nil
 	case "base":
 		v, err := e.eval(x.Args[0])
 		if err != nil {
@@ -801,6 +874,41 @@ func (e *Env) call(x *ECall) (TV, error) {
 		}
 		mh := vc.heap(e.st, mapHasName(m.Typ), arraySort(SInt, arraySort(vc.sortOf(mt.Key()), SBool)))
 		return TV{sel(sel(mh, m.T), k.T), tBool}, nil
+	case "visited":
+		// visited(k): key k has been produced by the map range loop whose
+		// clause is being evaluated (the ghost set of keys already iterated)
+		if len(x.Args) != 1 {
+			return TV{}, fmt.Errorf("visited takes one argument (a map key)")
+		}
+		if e.fr == nil || e.fr.curMapRange == nil {
+			return TV{}, fmt.Errorf("visited() is only available in the clauses of a loop that ranges over a map")
+		}
+		k, err := e.eval(x.Args[0])
+		if err != nil {
+			return TV{}, err
+		}
+		vs, live := e.cellState().cells[rangeKey{e.fr.curMapRange}]
+		if !live {
+			return TV{}, fmt.Errorf("visited(): the range is not active here")
+		}
+		return TV{sel(vs, k.T), tBool}, nil
+	case "visitedsum", "keysum":
+		// keysum(m, f): the sum of f(m[k]) over the keys k of the map m;
+		// visitedsum(f): the same sum over the keys the map range loop whose
+		// clause is being evaluated has produced so far. f is a ufunc of one
+		// reference argument with an integer result.
+		return e.mapSum(x)
+	case "visitedcount":
+		// visitedcount(): number of keys the map range loop whose clause is
+		// being evaluated has produced so far
+		if e.fr == nil || e.fr.curMapRange == nil {
+			return TV{}, fmt.Errorf("visitedcount() is only available in the clauses of a loop that ranges over a map")
+		}
+		vn, live := e.cellState().cells[rangeCountKey{rangeKey{e.fr.curMapRange}}]
+		if !live {
+			return TV{}, fmt.Errorf("visitedcount(): the range is not active here")
+		}
+		return TV{vn, tInt}, nil
 	case "fresh":
 		// fresh(x): x was allocated during the call/loop (not below the old watermark)
 		v, err := e.eval(x.Args[0])
@@ -1115,6 +1223,103 @@ func (e *Env) recCall(m *Macro, args []TV) (TV, error) {
 	return TV{app, rtyp}, nil
 }
 
+// mapSum evaluates keysum(m, f) and visitedsum(f). The sum over a finite key
+// set S of a map with value array mv is the uninterpreted function msum(S, mv)
+// axiomatised by msum({}, mv) = 0 and, for k not in S,
+// msum(S + {k}, mv) = msum(S, mv) + f(mv[k]).
+func (e *Env) mapSum(x *ECall) (TV, error) {
+	vc := e.vc
+	var mt types.Type
+	var set, vals Term
+	var fexpr Expr
+	if x.Fn == "keysum" {
+		if len(x.Args) != 2 {
+			return TV{}, fmt.Errorf("keysum takes a map and the name of a ufunc")
+		}
+		m, err := e.eval(x.Args[0])
+		if err != nil {
+			return TV{}, err
+		}
+		if m.Typ == nil {
+			return TV{}, fmt.Errorf("keysum: first argument is not a map")
+		}
+		mt = m.Typ
+		u, ok := mt.Underlying().(*types.Map)
+		if !ok {
+			return TV{}, fmt.Errorf("keysum: first argument is not a map")
+		}
+		ks, vs := vc.sortOf(u.Key()), vc.sortOf(u.Elem())
+		mh := vc.heap(e.st, mapHasName(mt), arraySort(SInt, arraySort(ks, SBool)))
+		mv := vc.heap(e.st, mapValName(mt), arraySort(SInt, arraySort(ks, vs)))
+		set = ite(eq(m.T, tZero), Term{fmt.Sprintf("((as const %s) false)", arraySort(ks, SBool)), arraySort(ks, SBool)}, sel(mh, m.T))
+		vals = sel(mv, m.T)
+		fexpr = x.Args[1]
+	} else {
+		if len(x.Args) != 1 {
+			return TV{}, fmt.Errorf("visitedsum takes the name of a ufunc")
+		}
+		if e.fr == nil || e.fr.curMapRange == nil {
+			return TV{}, fmt.Errorf("visitedsum() is only available in the clauses of a loop that ranges over a map")
+		}
+		r := e.fr.curMapRange
+		mt = r.X.Type()
+		u := mt.Underlying().(*types.Map)
+		ks, vs := vc.sortOf(u.Key()), vc.sortOf(u.Elem())
+		var live bool
+		set, live = e.cellState().cells[rangeKey{r}]
+		if !live {
+			return TV{}, fmt.Errorf("visitedsum(): the range is not active here")
+		}
+		mv := vc.heap(e.st, mapValName(mt), arraySort(SInt, arraySort(ks, vs)))
+		vals = sel(mv, e.fr.val(r.X))
+		fexpr = x.Args[0]
+	}
+	id, ok := fexpr.(*EIdent)
+	if !ok {
+		return TV{}, fmt.Errorf("%s: the function argument must be the name of a ufunc", x.Fn)
+	}
+	m := vc.specs.macro(e.pkgKey, id.Name)
+	if m == nil || !m.UF || len(m.Params) != 1 || (m.RType != "int" && m.RType != "") {
+		return TV{}, fmt.Errorf("%s: %s is not a ufunc of one argument with an integer result", x.Fn, id.Name)
+	}
+	u := mt.Underlying().(*types.Map)
+	ks, vs := vc.sortOf(u.Key()), vc.sortOf(u.Elem())
+	if vs != SInt {
+		return TV{}, fmt.Errorf("%s: map values must be references or integers", x.Fn)
+	}
+	uf := quote("uf:" + m.Name)
+	vc.declare("uf:"+uf, fmt.Sprintf("(declare-fun %s (%s) %s)", uf, SInt, SInt))
+	ms := quote("msum:" + m.Name + ":" + ks)
+	setS, valS := arraySort(ks, SBool), arraySort(ks, vs)
+	vc.declare("msum:"+ms, fmt.Sprintf("(declare-fun %s (%s %s) Int)\n"+
+		"(assert (forall ((mv %s)) (! (= (%s ((as const %s) false) mv) 0) :pattern ((%s ((as const %s) false) mv)))))\n"+
+		"(assert (forall ((ss %s) (mv %s) (kk %s)) (! (=> (not (select ss kk)) (= (%s (store ss kk true) mv) (+ (%s ss mv) (%s (select mv kk))))) :pattern ((%s (store ss kk true) mv)))))",
+		ms, setS, valS,
+		valS, ms, setS, ms, setS,
+		setS, valS, ks, ms, ms, uf, ms))
+	return TV{T(SInt, "(%s %s %s)", ms, set.S, vals.S), tInt}, nil
+}
+
+// quantVarType is the Go type of a quantifier's bound variable: int, string,
+// or *T for a named type T of the contract's package (the variable then
+// ranges over all references; fields of the object can be read).
+func (e *Env) quantVarType(q *EQuant) (types.Type, error) {
+	switch {
+	case q.VarTyp == "string":
+		return types.Typ[types.String], nil
+	case strings.HasPrefix(q.VarTyp, "*"):
+		if e.pkg == nil {
+			return nil, fmt.Errorf("quantifier over %s: no package in scope", q.VarTyp)
+		}
+		tn, ok := e.pkg.Scope().Lookup(q.VarTyp[1:]).(*types.TypeName)
+		if !ok {
+			return nil, fmt.Errorf("quantifier over %s: unknown type", q.VarTyp)
+		}
+		return types.NewPointer(tn.Type()), nil
+	}
+	return tInt, nil
+}
+
 // unfoldT is the defining equation of a recursive spec function at a term that
 // mentions bound variables; it is instantiated together with the quantifier.
 type unfoldT struct {
@@ -1195,17 +1400,31 @@ func exprString(x Expr) string {
 		if x.Forall {
 			q = "forall"
 		}
+		vn := x.Var
+		if x.VarTyp != "" {
+			vn += " " + x.VarTyp
+		}
 		if x.Lo != nil {
-			return fmt.Sprintf("%s %s in %s..%s :: %s", q, x.Var, exprString(x.Lo), exprString(x.Hi), exprString(x.Body))
+			return fmt.Sprintf("%s %s in %s..%s :: %s", q, vn, exprString(x.Lo), exprString(x.Hi), exprString(x.Body))
 		}
-		if x.VType != "" {
-			return fmt.Sprintf("%s %s %s :: %s", q, x.Var, x.VType, exprString(x.Body))
-		}
-		return fmt.Sprintf("%s %s :: %s", q, x.Var, exprString(x.Body))
+		return fmt.Sprintf("%s %s :: %s", q, vn, exprString(x.Body))
 	case *ECond:
 		return "(" + exprString(x.C) + " ? " + exprString(x.A) + " : " + exprString(x.B) + ")"
 	}
 	return fmt.Sprintf("%v", x)
+}
+
+// isCapturedCell reports whether a cell is a variable shared between a
+// function and its closures: a free variable of the closure being verified, or
+// a local of the caller that a closure captures.
+func isCapturedCell(cell ssa.Value) bool {
+	switch c := cell.(type) {
+	case *ssa.FreeVar:
+		return true
+	case *ssa.Alloc:
+		return isCapturedAtAll(c)
+	}
+	return false
 }
 
 // cellByName finds the live local variable cell with the given source name.
